@@ -86,6 +86,9 @@ def rand_scalar(rng, preferred=False):
     cs = [gen.rand_text(rng, 2).encode() for _ in range(rng.randint(0, 3))]
     return ('textI', [(rand_width(rng, len(b), preferred), b) for b in cs])
 
+IANA_TAGS = [0, 1, 2, 3, 4, 5, 16, 17, 18, 21, 22, 23, 24, 25, 29, 30, 32, 33, 34, 35, 36, 37, 61, 96, 98, 100, 256, 258, 260, 261, 1001, 1004, 55799, 55800, 15309736]
+
+
 def rand_tree(rng, depth, preferred=False, indef=True):
     if depth <= 0 or rng.random() < 0.35:
         return rand_scalar(rng, preferred)
@@ -100,7 +103,8 @@ def rand_tree(rng, depth, preferred=False, indef=True):
         if indef and rng.random() < 0.4: return ('mapI', items)
         return ('map', rand_width(rng, n, preferred), items)
     if r < 0.7:
-        g = gen.rand_u(rng, 64)
+        # tag numbers: spread over the widths, and the registered ones a library might treat specially
+        g = gen.rand_u(rng, 64) if rng.random() < 0.7 else rng.choice(IANA_TAGS)
         return ('tag', rand_width(rng, g, preferred), g, rand_tree(rng, depth - 1, preferred, indef))
     return rand_scalar(rng, preferred)
 
@@ -152,6 +156,10 @@ def small_trees(rng, limit):
             if gen.fits(w, g):
                 out.append(('tag', w, g, rng.choice(leaves)))
                 out.append(('tag', w, g, rng.choice(level1)))
+    for g in IANA_TAGS:
+        # every registered tag as the FIRST thing of an input (self-described CBOR 55799 is meant to be skipped by some tools)
+        out.append(('tag', min_width(g), g, rng.choice(level1)))
+        out.append(('array', 0, [('tag', min_width(g), g, rng.choice(leaves)), rng.choice(leaves)]))
     for _ in range(limit):
         items = [rng.choice(level1 + leaves) for _ in range(rng.randint(0, 3))]
         out += [rng.choice(conts(items))]
